@@ -2229,7 +2229,68 @@ func c11R3(c *Ctx, m *c11Model) {
 		default:
 			c.Ok(rule, key, sts[0].Pos(), "accepted range of %s is %s: covers [%d,%d] and fits the field type %s", w.field, r, w.lo, min(w.hi, tr.hi), tr)
 		}
+		// everything play can leave in the field (and Board.FEN then prints) must be accepted back
+		if w.field == "FiftyCnt" {
+			reach, how := fieldIncrementReach(m.p, "board.Board."+w.field, tr.hi)
+			if r.hi >= reach {
+				c.Ok(rule, key+"#printable", sts[0].Pos(), "the parser accepts up to %d; play can raise the clock to at most %d (%s)", r.hi, reach, how)
+			} else {
+				c.Fail(rule, key+"#printable", sts[0].Pos(), "the parser accepts the halfmove clock only up to %d, but play can raise it to %d (%s): the engine rejects FENs it prints itself (e.g. after 102 reversible plies `fen` prints `... 102 52` and `position fen` of that text answers `fifty move count out of range 102`)", r.hi, reach, how)
+			}
+		}
 	}
+}
+
+// fieldIncrementReach: the largest value `field++` sites can leave in an integer
+// struct field: the dominating upper bound if every increment has one, else the type's maximum.
+func fieldIncrementReach(p *Prog, qname string, typeMax int64) (int64, string) {
+	reach := int64(0)
+	how := "no increment found"
+	for _, fn := range p.OwnFuncs() {
+		allInstrs(fn, func(in ssa.Instruction) {
+			st, ok := in.(*ssa.Store)
+			if !ok {
+				return
+			}
+			fa, ok := st.Addr.(*ssa.FieldAddr)
+			if !ok {
+				return
+			}
+			fr, ok := asFieldAddr(fa)
+			if !ok || fr.QName() != qname {
+				return
+			}
+			bo, ok := stripConv(st.Val).(*ssa.BinOp)
+			if !ok || bo.Op != token.ADD {
+				return
+			}
+			if k, isc := constOf(bo.Y); !isc || k != 1 {
+				return
+			}
+			bound := typeMax
+			desc := "unbounded increment in " + fnName(fn)
+			for _, ce := range controllingConds(st.Block()) {
+				cb, ok := ce.Cond.(*ssa.BinOp)
+				if !ok {
+					continue
+				}
+				lim, isc := constOf(cb.Y)
+				if !isc || !sameValue(stripConv(cb.X), stripConv(bo.X), 0) {
+					continue
+				}
+				switch {
+				case cb.Op == token.LSS && ce.True, cb.Op == token.GEQ && !ce.True:
+					bound, desc = lim, fmt.Sprintf("increment guarded by < %d in %s", lim, fnName(fn))
+				case cb.Op == token.LEQ && ce.True, cb.Op == token.GTR && !ce.True:
+					bound, desc = lim+1, fmt.Sprintf("increment guarded by <= %d in %s", lim, fnName(fn))
+				}
+			}
+			if bound > reach {
+				reach, how = bound, desc
+			}
+		})
+	}
+	return reach, how
 }
 
 func c11EmitVal(e *c11Emit) ssa.Value {
